@@ -14,7 +14,9 @@ RULE = ("spec trees (depth <= 4) generated from the combinator grammar - primiti
         "non-shift), TypedByteArray / Fixed / Greedy (lazy, empty_is_none), generated dataclasses, Dict / Bool / Expr / "
         "StringEnum adapters, quantised floats / vectors / fixed point - with window-consuming nodes only last in their byte "
         "window or inside a length-delimited wrapper; values drawn from the domain derived from the spec; x {little, big} "
-        "endian x {object, pod} x trailing bytes; plus out-of-range values.  Non-trivial = tree depth >= 2; distinct by "
+        "endian x {object, pod} x trailing bytes; plus out-of-range values; plus packed quaternions over every 3- and 4-component "
+        "child (F32, U16, U8) from generated wire components biased to the zero encodings (3-component W is derived, 4-component W "
+        "is carried, including W == 0).  Non-trivial = tree depth >= 2; distinct by "
         "(spec description, value).")
 ASSUMPTIONS = [
     "value domains are derived from the combinators' documented behaviour: text has no trailing NUL and fits its field, terminated "
@@ -22,13 +24,15 @@ ASSUMPTIONS = [
     "combined with inner specs that never encode to nothing",
     "read results are compared after normalisation (lazy proxies unwrapped, dataclasses as dicts, floats by bits)",
 ]
-FLOORS = {"quick": dict({"kind:" + k: 25 for k in gs.ALL_KINDS}, **{"depth>=2": 1500, "self_delimiting": 1000, "window_consuming": 500, "ood": 50}),
+FLOORS = {"quick": dict({"kind:" + k: 25 for k in gs.ALL_KINDS}, **{"depth>=2": 1500, "self_delimiting": 1000, "window_consuming": 500, "ood": 50, "quat:4-component:w-zero": 150,
+                                                                     "quat:V4F32": 300, "quat:V4U16": 300, "quat:V4U8": 300, "quat:V3F32": 300, "quat:V3U16": 300, "quat:V3U8": 300}),
           "thorough": {"kind:" + k: 500 for k in gs.ALL_KINDS}}
 MANIFEST = {
     "text": "Program-level generation: random compositions of the framework's combinators with values from the derived domain; "
             "each is written and read back in both byte orders and both modes and checked for value equality, exact consumption, "
             "size-query agreement, composition with trailing bytes, identical bytes from object and pod forms, and rejection of "
-            "out-of-range values; failures are localised to the smallest failing sub-spec.",
+            "out-of-range values; failures are localised to the smallest failing sub-spec; packed quaternions are checked against "
+            "their child coordinate read alone (derived W for three components, carried W for four).",
     "note": "Sampling over an infinite space of spec trees; per-combinator floors in the evidence show each class was exercised.",
     "technique": "Hypothesis grammar-based spec generation with derived value domains; round-trip / framing / size / composition oracles",
 }
@@ -236,10 +240,72 @@ def check_ood(name, desc, value):
     return out
 
 
+# ---- packed quaternions: 3-component children derive W, 4-component children carry it ---------------------
+_QUAT_CHILDREN = {
+    "V4F32": (lambda: se.Vector4, 4, None), "V4U16": (lambda: se.Vector4U16(-1.0, 1.0), 4, 0xFFFF), "V4U8": (lambda: se.Vector4U8(-1.0, 1.0), 4, 0xFF),
+    "V3F32": (lambda: se.Vector3, 3, None), "V3U16": (lambda: se.Vector3U16(-1.0, 1.0), 3, 0xFFFF), "V3U8": (lambda: se.Vector3U8(-1.0, 1.0), 3, 0xFF),
+}
+
+
+@st.composite
+def quat_cases(draw):
+    child = draw(st.sampled_from(sorted(_QUAT_CHILDREN)))
+    _, n, hi = _QUAT_CHILDREN[child]
+    if hi is None:
+        elem = st.one_of(st.floats(-1.0, 1.0, width=32), st.sampled_from([0.0, -0.0, 1.0, -1.0, 0.5]))
+    else:
+        mid = (hi + 1) // 2
+        elem = st.one_of(st.integers(0, hi), st.sampled_from([0, hi, mid, mid - 1, mid + 1]))
+    return {"quat": child, "raw": [draw(elem) for _ in range(n)], "endian": draw(st.sampled_from("<>"))}
+
+
+def quat_laws(case):
+    import math
+    import struct
+    mk, n, hi = _QUAT_CHILDREN[case["quat"]]
+    child, endian = mk(), case["endian"]
+    spec = se.PackedQuat(child)
+    fmt = endian + {None: "f", 0xFFFF: "H", 0xFF: "B"}[hi] * n
+    data = struct.pack(fmt, *case["raw"])
+    out = []
+    try:
+        c = tuple(se.BufferReader(endian, data).read(child))
+        r = se.BufferReader(endian, data)
+        q = r.read(spec)
+        if len(r) != 0:
+            out.append(("quat:framing", "PackedQuat(%s) left %d bytes unread" % (case["quat"], len(r))))
+        qt = (q.X, q.Y, q.Z, q.W)
+        if n == 4:
+            want = c
+        else:
+            t = 1.0 - (c[0] * c[0] + c[1] * c[1] + c[2] * c[2])
+            want = c + (math.sqrt(t) if t > 0 else 0.0,)
+        if any(abs(a - b) > 1e-9 for a, b in zip(qt, want)):
+            out.append(("quat:value:%d-component" % n, "PackedQuat(%s) of wire %s reads as %r, the wire components say %r" % (
+                case["quat"], data.hex(), qt, want)))
+        back = write(spec, q, endian)
+        ref = write(child, child.COORD_CLS(*c) if hasattr(child, "COORD_CLS") else c, endian)
+        if bytes(back) != bytes(ref):
+            out.append(("quat:rewrite:%d-component" % n, "PackedQuat(%s): value read from %s is written back as %s (child alone: %s)" % (
+                case["quat"], data.hex(), bytes(back).hex(), bytes(ref).hex())))
+        q2 = se.BufferReader(endian, bytes(back)).read(spec)
+        if any(abs(a - b) > 1e-9 for a, b in zip((q2.X, q2.Y, q2.Z, q2.W), qt)):
+            out.append(("quat:roundtrip:%d-component" % n, "PackedQuat(%s): read(write(%r)) == %r" % (case["quat"], qt, tuple(q2))))
+        # a plain tuple of the same components is accepted and encodes identically
+        back_t = write(spec, qt, endian)
+        if bytes(back_t) != bytes(back):
+            out.append(("quat:tuple-form:%d-component" % n, "PackedQuat(%s): the tuple %r encodes as %s, the Quaternion as %s" % (
+                case["quat"], qt, bytes(back_t).hex(), bytes(back).hex())))
+    except Exception as e:
+        out.append(("quat:raises:%s" % type(e).__name__, "PackedQuat(%s) on wire %s raised %r" % (case["quat"], data.hex(), e)))
+    return out
+
+
 def shards(tier):
     th = tier == "thorough"
     sh = [{"kind": "gen", "n": 12000 if th else 1500, "depth": 3 + (i % 2)} for i in range(16)]
     sh.append({"kind": "ood"})
+    sh.append({"kind": "quat", "n": 40000 if th else 4000})
     return sh
 
 
@@ -252,6 +318,16 @@ def run_shard(ctx, shard):
             if res:
                 ctx.report({"ood": name}, res)
         ctx.bulk(n, n, {"ood": n}, {"ood": "byte_array:U8:256 etc."})
+        return
+
+    if shard["kind"] == "quat":
+        def qbody(case):
+            _, n, hi = _QUAT_CHILDREN[case["quat"]]
+            zero_w = n == 4 and (case["raw"][3] == 0.0 if hi is None else case["raw"][3] in ((hi + 1) // 2, (hi + 1) // 2 - 1))
+            ctx.case(("quat", case["quat"], tuple(case["raw"]), case["endian"]), nontrivial=len(set(case["raw"])) > 1,
+                     classes=["quat:" + case["quat"], "quat:4-component:w-zero" if zero_w else "quat:other"])
+            return quat_laws(case)
+        hyp_run(ctx, quat_cases(), qbody, shard["n"])
         return
 
     def body(case):
@@ -272,4 +348,6 @@ def replay(ctx, case):
             if name == case["ood"]:
                 return check_ood(name, desc, value)
         return []
+    if "quat" in case:
+        return quat_laws(case)
     return laws(case)
